@@ -51,11 +51,11 @@ def qualify_tables(
     next_alias_name = name_sequence("_")
 
     if db := db or None:
-        db = exp.parse_identifier(db, dialect=dialect)
+        db = exp.parse_identifier(db, dialect=dialect).copy()
         db.meta["is_table"] = True
         db = normalize_identifiers(db, dialect=dialect)
     if catalog := catalog or None:
-        catalog = exp.parse_identifier(catalog, dialect=dialect)
+        catalog = exp.parse_identifier(catalog, dialect=dialect).copy()
         catalog.meta["is_table"] = True
         catalog = normalize_identifiers(catalog, dialect=dialect)
 
